@@ -577,6 +577,9 @@ class YP(object):
             pass
         finally:
             sys.setrecursionlimit(old_recursionlimit)
+            # an aborted enumeration must not keep its variables bound
+            if hasattr(query, 'close'):
+                query.close()
         return result
 
     def match_dynamic(self, name, args):
